@@ -528,3 +528,102 @@ Proof.
 Qed.
 
 End FoldTyped.
+
+(* ================================================================================================
+   the folded tree is safe to evaluate
+   ================================================================================================ *)
+Section FoldSafe.
+Variable fo : fops.
+Variable re : bytes -> bytes -> res bool.
+Hypothesis re_ok : forall p t, match re p t with Err x => x = EOther | Panic => False | _ => True end.
+Variable fmt_v : F fo -> string.
+
+Notation fold := (Fold.fold fo re fmt_v).
+
+Lemma nk_row : forall e, nk fo false e = node_okt fo e.
+Proof. intros e. unfold nk. apply andb_true_r. Qed.
+Lemma nk_vec : forall e, nk fo true e = node_oktv fo e.
+Proof. reflexivity. Qed.
+
+Lemma defs_nk_row : forall e, defs_ok (nk fo false) e = true <-> defs_ok (node_okt fo) e = true.
+Proof.
+  intros e. split; apply defs_ok_mono; intros x; rewrite nk_row; auto.
+Qed.
+
+(* what a transformation that keeps the node conditions gives the two evaluators *)
+Lemma TG_row_safe : forall e e', TG fo false e e' ->
+  node_okt fo e = true -> defs_ok (node_okt fo) e = true ->
+  rtype e' = rtype e /\ node_okt fo e' = true /\ defs_ok (node_okt fo) e' = true /\
+  forall k v, dyn_ok2 fo re k v e'.
+Proof.
+  intros e e' [_ HN] Hn Hd. rewrite <- nk_row in Hn. apply defs_nk_row in Hd.
+  destruct (HN Hn Hd) as (R & K & D & _). rewrite nk_row in K. apply defs_nk_row in D.
+  repeat (split; [assumption|]). intros k v. exact (eval_safe2_weak fo re re_ok k v e' K D).
+Qed.
+
+Lemma TG_vec_safe : forall e e', TG fo true e e' ->
+  node_oktv fo e = true -> defs_ok (node_oktv fo) e = true ->
+  rtype e' = rtype e /\ node_oktv fo e' = true /\ defs_ok (node_oktv fo) e' = true /\
+  forall ch, dyn_ok_vec fo re ch e'.
+Proof.
+  intros e e' [_ HN] Hn Hd. destruct (HN Hn Hd) as (R & K & D & _).
+  repeat (split; [assumption|]). intros ch. exact (eval_batch_safe_weak fo re re_ok e' ch K D).
+Qed.
+
+(* Expression.Execute on the tree ExpressionOptimizer.Optimize returns: a value of the static
+   type of the CHECKED tree, or a data-dependent failure of the folded tree (division by zero at
+   a divisor, crossed BETWEEN bounds, a distance function, a regular expression that does not
+   compile); never an operand-type error, never a panic *)
+Theorem fold_safe_row : forall e,
+  node_okt fo e = true -> defs_ok (node_okt fo) e = true ->
+  rtype (fold e) = rtype e /\ node_okt fo (fold e) = true /\ defs_ok (node_okt fo) (fold e) = true /\
+  forall k v, dyn_ok2 fo re k v (fold e).
+Proof. intros e. apply TG_row_safe. apply fold_TG. Qed.
+
+(* ... and ExecuteBatch on any chunk *)
+Theorem fold_safe_vec : forall e,
+  node_oktv fo e = true -> defs_ok (node_oktv fo) e = true ->
+  rtype (fold e) = rtype e /\ node_oktv fo (fold e) = true /\ defs_ok (node_oktv fo) (fold e) = true /\
+  forall ch, dyn_ok_vec fo re ch (fold e).
+Proof. intros e. apply TG_vec_safe. apply fold_TG. Qed.
+
+(* composition with Check and the call validation: the premises of
+   no_dynamic_type_error_functions_partial / _batch_partial, the conclusion for the FOLDED tree *)
+Theorem checked_fold_safe2 : forall ctx e e1 a,
+  check fo true ctx e = Ok e1 ->
+  check_calls a (rewrite_name (c_names ctx) e1) = Ok tt ->
+  core2 (rewrite_name (c_names ctx) e1) = true ->
+  params_static (rewrite_name (c_names ctx) e1) = true ->
+  defs_ok (node_ok fo) (rewrite_name (c_names ctx) e1) = true ->
+  rtype (fold (rewrite_name (c_names ctx) e1)) = rtype (rewrite_name (c_names ctx) e1) /\
+  forall k v, dyn_ok2 fo re k v (fold (rewrite_name (c_names ctx) e1)).
+Proof.
+  intros ctx e e1 a Hc Hcalls Hcore Hps Hdefs.
+  assert (Hn : node_ok fo (rewrite_name (c_names ctx) e1) = true).
+  { apply node_ok_intro; try assumption.
+    - rewrite wt_rw. exact (check_wt fo _ _ _ Hc).
+    - exact (check_calls_counts _ _ Hcalls). }
+  destruct (fold_safe_row _ (node_ok_okt fo _ Hn) (defs_ok_mono _ _ (node_ok_okt fo) _ Hdefs)) as (R & _ & _ & S).
+  split; assumption.
+Qed.
+
+Theorem checked_fold_safe_vec : forall ctx e e1 a,
+  check fo true ctx e = Ok e1 ->
+  check_calls a (rewrite_name (c_names ctx) e1) = Ok tt ->
+  core2 (rewrite_name (c_names ctx) e1) = true ->
+  params_static (rewrite_name (c_names ctx) e1) = true ->
+  in_kinds (rewrite_name (c_names ctx) e1) = true ->
+  defs_ok (node_okv fo) (rewrite_name (c_names ctx) e1) = true ->
+  rtype (fold (rewrite_name (c_names ctx) e1)) = rtype (rewrite_name (c_names ctx) e1) /\
+  forall ch, dyn_ok_vec fo re ch (fold (rewrite_name (c_names ctx) e1)).
+Proof.
+  intros ctx e e1 a Hc Hcalls Hcore Hps Hk Hdefs.
+  assert (Hn : node_okv fo (rewrite_name (c_names ctx) e1) = true).
+  { apply node_okv_intro; try assumption.
+    - rewrite wt_rw. exact (check_wt fo _ _ _ Hc).
+    - exact (check_calls_counts _ _ Hcalls). }
+  destruct (fold_safe_vec _ (node_okv_oktv fo _ Hn) (defs_ok_mono _ _ (node_okv_oktv fo) _ Hdefs)) as (R & _ & _ & S).
+  split; assumption.
+Qed.
+
+End FoldSafe.
